@@ -1175,9 +1175,55 @@ func (x *Exec) freshResults(st *State, sig *types.Signature, hint string) Val {
 	return t
 }
 
+// invokeSiteNumber: ordinal (source order) of the invoke of method name at pos within the root function.
+func (x *Exec) invokeSiteNumber(name string, pos token.Pos) int {
+	var ps []token.Pos
+	var visit func(f *ssa.Function)
+	visit = func(f *ssa.Function) {
+		for _, b := range f.Blocks {
+			for _, in := range b.Instrs {
+				if c, ok := in.(*ssa.Call); ok && c.Common().IsInvoke() && c.Common().Method.Name() == name {
+					ps = append(ps, c.Pos())
+				}
+			}
+		}
+		for _, a := range f.AnonFuncs {
+			visit(a)
+		}
+	}
+	visit(x.rootFn)
+	sort.Slice(ps, func(i, j int) bool { return ps[i] < ps[j] })
+	for i, p := range ps {
+		if p == pos {
+			return i + 1
+		}
+	}
+	return 0
+}
+
 func (x *Exec) invoke(st *State, fr *Frame, ci *callInfo, recv Val, recvT types.Type, m *types.Func, args []Val, k func(*State, *Frame, Val)) {
 	key := "iface:" + typeString(recvT) + "." + m.Name()
 	ci.name = key
+	// call-site assertions on interface methods are keyed by the method name
+	if x.root != nil && x.root.AtCalls != nil && x.quiet == 0 && len(st.Frames) == 1 {
+		if cls, ok := x.root.AtCalls[m.Name()]; ok {
+			c := x.envFor(st, x.entry, st.Frames[0], nil)
+			c.frames = st.Frames
+			sigp := m.Type().(*types.Signature).Params()
+			for i, a := range args {
+				if i < sigp.Len() {
+					c.names["arg_"+sigp.At(i).Name()] = cv{V: a, T: sigp.At(i).Type()}
+				}
+			}
+			siteNo := x.invokeSiteNumber(m.Name(), ci.pos)
+			for _, cl := range cls {
+				if !cl.appliesTo(x.root.Prop) || (cl.Site != 0 && cl.Site != siteNo) {
+					continue
+				}
+				x.emit(st, "assert", x.oblName("at-call:"+m.Name()+"/"+cl.Name), cl.Line, x.evalClause(c, cl))
+			}
+		}
+	}
 	if ev, ok := recv.(*ErrV); ok {
 		_ = ev
 		if m.Name() == "Error" {
